@@ -58,6 +58,7 @@ type Node struct {
 	Values       []string // enum
 	InaccValues  []string
 	Static       string
+	IsTypeName   bool // KStr: resolve.String{IsTypeName: true} (only generated with Gen.TypeShapes)
 }
 
 func strs(xs []string) string {
@@ -96,6 +97,9 @@ func (n *Node) Sexp() string {
 	case KArr:
 		return common.L("arr", strs(n.Path), common.B(n.Nullable), n.Item.Sexp())
 	case KStr:
+		if n.IsTypeName {
+			return common.L("str", strs(n.Path), common.B(n.Nullable), "(tn)")
+		}
 		return common.L("str", strs(n.Path), common.B(n.Nullable))
 	case KBool:
 		return common.L("bool", strs(n.Path), common.B(n.Nullable))
@@ -171,7 +175,7 @@ func (n *Node) Build() resolve.Node {
 	case KArr:
 		return &resolve.Array{Path: path(n.Path), Nullable: n.Nullable, Item: n.Item.Build()}
 	case KStr:
-		return &resolve.String{Path: path(n.Path), Nullable: n.Nullable}
+		return &resolve.String{Path: path(n.Path), Nullable: n.Nullable, IsTypeName: n.IsTypeName}
 	case KBool:
 		return &resolve.Boolean{Path: path(n.Path), Nullable: n.Nullable}
 	case KInt:
@@ -244,6 +248,11 @@ type Gen struct {
 	Paths   bool
 	Overlap bool       // with Paths: let sibling paths be prefixes of one another (outside plan_wf)
 	Stats   *PathStats // with Paths: filled while generating
+	// TypeShapes (typeshapes.go; C02 only, unset = the stream C10/C14 were built on): every
+	// (TypeName, PossibleTypes) shape on objects incl. entity interfaces, String{IsTypeName:true} leaves for
+	// __typename selections, and a payload mutation that puts every JSON kind (or nothing) at "__typename".
+	TypeShapes bool
+	TStats     *TypeStats
 }
 
 func (g *Gen) leaf(path []string) *Node {
@@ -297,9 +306,11 @@ func (g *Gen) node(depth int, path []string, encl [][]string) *Node {
 func (g *Gen) object(depth int, path []string, encl [][]string) *Node {
 	o := &Node{Kind: KObj, Path: path, Nullable: g.R.Chance(1, 2), TypeName: common.PickOf(g.R, typeNames)}
 	var possible []string
-	switch g.R.Pick(4) {
-	case 0: // concrete, no possible types recorded
-	case 1: // concrete with itself
+	switch shape := g.R.Pick(4); {
+	case g.TypeShapes:
+		possible = g.typeShape(o)
+	case shape == 0: // concrete, no possible types recorded
+	case shape == 1: // concrete with itself
 		possible = []string{o.TypeName}
 	default: // abstract
 		o.TypeName = "I"
@@ -318,7 +329,11 @@ func (g *Gen) object(depth int, path []string, encl [][]string) *Node {
 	}
 	encl2 := append([][]string{possible}, encl...)
 	nf := 1 + g.R.Pick(4)
-	if len(possible) > 1 || g.R.Chance(1, 3) {
+	if g.TypeShapes {
+		if g.R.Chance(3, 5) {
+			o.Fields = append(o.Fields, &Field{Name: "__typename", Value: g.typeNameLeaf()})
+		}
+	} else if len(possible) > 1 || g.R.Chance(1, 3) {
 		o.Fields = append(o.Fields, &Field{Name: "__typename", Value: &Node{Kind: KStr, Path: []string{"__typename"}, Nullable: g.R.Chance(1, 5)}})
 	}
 	used := map[string]bool{}
@@ -621,6 +636,9 @@ func (g *Gen) Payload(root *Node) (string, []string) {
 	for i := 0; i < k; i++ {
 		labels = append(labels, g.Mutate(j))
 	}
+	if g.TypeShapes && g.R.Chance(3, 4) {
+		labels = append(labels, g.mutateTypeName(j))
+	}
 	// root-level duplicate keys are collapsed by Init's MergeValues; keep the root duplicate free
 	seen := map[string]bool{}
 	var keys []string
@@ -678,7 +696,7 @@ func FromSexp(x *common.Sexp) *Node {
 		return &Node{Kind: KArr, Path: strsOrNil(l[1]), Nullable: l[2].Bool(), Item: FromSexp(l[3])}
 	case "str", "bool", "int", "float", "bigint", "scalar":
 		k := map[string]Kind{"str": KStr, "bool": KBool, "int": KInt, "float": KFloat, "bigint": KBigInt, "scalar": KScalar}[x.Head()]
-		return &Node{Kind: k, Path: strsOrNil(l[1]), Nullable: l[2].Bool()}
+		return &Node{Kind: k, Path: strsOrNil(l[1]), Nullable: l[2].Bool(), IsTypeName: k == KStr && len(l) > 3 && l[3].Head() == "tn"}
 	case "enum":
 		return &Node{Kind: KEnum, Path: strsOrNil(l[1]), Nullable: l[2].Bool(), TypeName: string(l[3].Str), Values: strsOrNil(l[4]), InaccValues: strsOrNil(l[5])}
 	case "null":
